@@ -131,3 +131,339 @@ def check_sets(scn, res, restarts=False):
 
 def oracle_c01(scn, res):
     return check_sets(scn, res, restarts=bool(scn.get('faults'))), outcome(res)
+
+
+# ---- C02: order / duplication -----------------------------------------------------------------------------------------
+
+def check_order(scn, res, ids_strict=True):
+    """Per consumer incarnation: message ids strictly increase; per (origin, origin incarnation) seq strictly increases
+    (synchronized / balanced consumers).  Ephemeral-only consumers: non-decreasing (C05)."""
+
+    viols = []
+    fs    = fdict(scn)
+    fam   = family(scn)
+    last_mid = {}
+    last_seq = {}
+
+    def bad(kind, what, e):
+        viols.append({'signature': f'C02/{kind}/{fam}', 'what': f'[{scn.get("name")}] {what}',
+                      'detail': {k: v for k, v in e.items() if k != 'tags'}})
+
+    for e in res.log:
+        if e['ev'] == 'recv':
+            f    = fs[e['f']]
+            srcs = sources_of(f)
+            sync = any(eph == 0 for _, eph, _, _ in srcs)
+            key  = (e['f'], e['inc'])
+
+            if sync:
+                if key in last_mid and e['mid'] <= last_mid[key]:
+                    bad('id-not-increasing', f'{e["f"]}#{e["inc"]} received id {e["mid"]} after id {last_mid[key]}', e)
+
+                last_mid[key] = e['mid']
+
+        elif e['ev'] == 'process' and e['inp']:
+            f     = fs[e['f']]
+            srcs  = {up: eph for up, eph, _, _ in sources_of(f)}
+            seen  = set()
+
+            for t, v in sorted(e['inp'].items()):
+                tag = e['tags'].get(t)
+
+                if tag is None or v['o'] is None:
+                    continue
+
+                up  = tag[0][1]
+                eph = srcs.get(up, 0)
+                key = (e['f'], e['inc'], up, v['o'], v['i'])
+
+                if key in seen:
+                    continue    # several topics of one set legitimately share a seq
+
+                seen.add(key)
+
+                prev = last_seq.get(key)
+
+                if prev is not None and (v['seq'] < prev or (v['seq'] == prev and not eph)):
+                    bad('duplicate' if v['seq'] == prev else 'out-of-order',
+                        f'{e["f"]}#{e["inc"]} was handed seq {v["seq"]} of {v["o"]}#{v["i"]} (via {up}) after seq {prev}', e)
+
+                last_seq[key] = v['seq']
+
+    return viols
+
+
+def oracle_c02(scn, res):
+    return check_sets(scn, res, restarts=bool(scn.get('faults'))) + check_order(scn, res), outcome(res)
+
+
+# ---- C03: functional reference model of a synchronized pipeline ----------------------------------------------------------
+
+def apply_ops(f, frames, k):
+    """Reference semantics of SimFilter.process for relays/sinks: frames = {topic: (origin, seq)} -> published dict | None."""
+
+    out = dict(frames)
+    ret = out
+    seqs = [v[1] for v in frames.values()]
+    seq = seqs[0] if seqs else None
+
+    for op in f.get('ops', ()):
+        o = op[0]
+
+        if o == 'skip':
+            if seq in op[1]:
+                return None
+        elif o == 'rename':
+            if op[1] in out:
+                out[op[2]] = out.pop(op[1])
+        elif o == 'add':
+            base = next(iter(out.values()), None)
+            out[op[1]] = base
+        elif o == 'drop':
+            out.pop(op[1], None)
+        elif o == 'empty':
+            ret = {}
+        elif o == 'empty_at':
+            if seq in op[1]:
+                ret = {}
+        elif o == 'lone':
+            ret = {'main': out.get('main') or next(iter(out.values()))}
+        elif o == 'none':
+            return None
+
+    return ret
+
+
+def reference_inputs(scn):
+    """filter name -> expected list of process() inputs, each {topic_dst: (origin, seq)}, for a synchronized pipeline."""
+
+    fs   = fdict(scn)
+    pubs = {}     # name -> list of (mid, {topic: (o, seq)})
+    inps = {}
+
+    def published(name):
+        if name in pubs:
+            return pubs[name]
+
+        f = fs[name]
+
+        if f.get('kind') == 'source':
+            out = []
+            empty = set()
+
+            for op in f.get('ops', ()):
+                if op[0] == 'empty_at':
+                    empty |= set(op[1])
+
+            for k in range(f.get('n', 3)):
+                out.append((k, {} if k in empty else {t: (name, k) for t in f.get('topics', ['main'])}))
+
+            pubs[name] = out
+
+            return out
+
+        ins = inputs(name)
+        out = []
+
+        for k, (mid, frames) in enumerate(ins):
+            r = apply_ops(f, frames, k)
+
+            if r is not None:
+                out.append((mid, r))
+
+        pubs[name] = out
+
+        return out
+
+    def inputs(name):
+        if name in inps:
+            return inps[name]
+
+        f    = fs[name]
+        srcs = sources_of(f)
+        per  = []
+
+        for up, eph, spec, _ in srcs:
+            lst = {}
+
+            for mid, frames in published(up):
+                sel = {}
+
+                if spec is None:
+                    sel = {t: v for t, v in frames.items() if not t.startswith('_')}
+                elif spec == '*':
+                    sel = dict(frames)
+                else:
+                    for a, b in spec:
+                        if a in frames:
+                            sel[b] = frames[a]
+
+                lst[mid] = sel
+
+            per.append(lst)
+
+        mids = sorted(set.intersection(*[set(l) for l in per])) if per else []
+        out  = []
+
+        for mid in mids:
+            d = {}
+
+            for l in per:
+                d.update(l[mid])
+
+            out.append((mid, d))
+
+        inps[name] = out
+
+        return out
+
+    return {f['name']: inputs(f['name']) for f in scn['filters'] if f.get('sources')}
+
+
+def observed_inputs(scn, res):
+    obs = {}
+
+    for e in res.log:
+        if e['ev'] == 'process' and fdict(scn)[e['f']].get('sources'):
+            obs.setdefault(e['f'], []).append((e['mid'], {t: (v['o'], v['seq']) for t, v in e['inp'].items()}))
+
+    return obs
+
+
+def topo_consumers(scn, name):
+    return [f['name'] for f in scn['filters'] for up, _, _, _ in sources_of(f) if up == name]
+
+
+def check_composition(scn, res, only=None):
+    viols = []
+    fam   = family(scn)
+    exp   = reference_inputs(scn)
+    obs   = observed_inputs(scn, res)
+
+    for name, want in exp.items():
+        if only is not None and name not in only:
+            continue
+
+        got = obs.get(name, [])
+
+        if [w[1] for w in want] != [g[1] for g in got]:
+            k = next((i for i, (w, g) in enumerate(zip(want, got)) if w[1] != g[1]), min(len(want), len(got)))
+            kind = 'lost-or-extra-frame'
+
+            if len(got) < len(want) and [w[1] for w in want[:len(got)]] == [g[1] for g in got]:
+                kind = 'incomplete-by-horizon'
+            elif want and got and want[0][1] != got[0][1]:
+                kind = 'first-frame-lost' if [w[1] for w in want[1:1 + len(got)]] == [g[1] for g in got][:len(want) - 1] else kind
+
+            viols.append({'signature': f'C03/{kind}/{fam}',
+                          'what': f'[{scn.get("name")}] {name} saw {len(got)} sets, reference model says {len(want)}; first difference at '
+                                  f'index {k}: got {got[k][1] if k < len(got) else None}, expected {want[k][1] if k < len(want) else None} '
+                                  f'(stop={res.reason} at {res.now} ms)',
+                          'detail': {'filter': name, 'got': [g[1] for g in got], 'want': [w[1] for w in want]}})
+
+    # deferred results: evaluated exactly once per published id, at the moment of the publish
+    fsd = fdict(scn)
+
+    for i, e in enumerate(res.log):
+        if e['ev'] == 'deferred' and (fsd[e['f']].get('kind') == 'source' or topo_consumers(scn, e['f'])):
+            wl = e.get('wire_len')
+            nxt = res.wire[wl] if wl is not None and wl < len(res.wire) else None
+
+            if nxt is None or nxt[0] != e['t'] or nxt[1] not in ('snd', 'pub') or not nxt[2].startswith(e['f']):
+                viols.append({'signature': f'C03/deferred-not-at-send/{fam}',
+                              'what': f'[{scn.get("name")}] deferred result of {e["f"]} (seq {e.get("seq")}) evaluated at {e["t"]} ms '
+                                      f'but the next wire event is {nxt}', 'detail': e})
+
+    seen = {}
+
+    for e in res.log:
+        if e['ev'] == 'deferred':
+            key = (e['f'], e['inc'], e['k'])
+            seen[key] = seen.get(key, 0) + 1
+
+            if seen[key] > 1:
+                viols.append({'signature': f'C03/deferred-twice/{fam}',
+                              'what': f'[{scn.get("name")}] deferred result of {e["f"]} call {e["k"]} evaluated {seen[key]} times', 'detail': e})
+
+    return viols
+
+
+def oracle_c03(scn, res):
+    return check_composition(scn, res) + check_sets(scn, res) + check_order(scn, res), outcome(res)
+
+
+def check_content(scn, res):
+    """C02 content/topic selection: the k-th set handed to the sink equals the reference selection of the k-th published
+    set: same destination topics, same image bytes (raw) or same jpg bytes (jpg-backed), same data."""
+
+    from mc import simnet
+
+    viols = []
+    fs    = fdict(scn)
+    srcf  = fs['src']
+    snk   = fs['snk']
+    up, eph, spec, _ = sources_of(snk)[0]
+    topics = srcf.get('topics', ['main'])
+    n      = srcf.get('n', 3)
+    got    = [e for e in res.log if e['ev'] == 'process' and e['f'] == 'snk']
+
+    def bad(kind, what, d=None):
+        viols.append({'signature': f'C02/{kind}/content', 'what': f'[{scn.get("name")}] {what}', 'detail': d})
+
+    if len(got) != n:
+        bad('content-count', f'sink processed {len(got)} sets, {n} were published (stop={res.reason})')
+
+    for k, e in enumerate(got[:n]):
+        exp = {}
+
+        for j, t in enumerate(topics):
+            dst = None
+
+            if spec is None:
+                dst = None if t.startswith('_') else t
+            elif spec == '*':
+                dst = t
+            else:
+                dst = next((b for a, b in spec if a == t), None)
+
+            if dst is not None:
+                exp[dst] = simnet.payload(simnet.KINDS[(j + k) % len(simnet.KINDS)], 'src', 0, k, t)[1]
+
+        obs = e.get('content', {})
+
+        if set(obs) != set(exp):
+            bad('wrong-topics', f'set {k}: sink got topics {sorted(obs)}, subscription {snk["sources"][0]!r} of published {topics} selects {sorted(exp)}',
+                {'k': k, 'got': sorted(obs), 'want': sorted(exp)})
+            continue
+
+        for t in exp:
+            o, x = obs[t], exp[t]
+            o = {**o, 'img': None if o['img'] is None else (tuple(o['img'][0]), o['img'][1], o['img'][2])}
+
+            if o != x:
+                what = 'data' if o['data'] != x['data'] else 'image'
+                bad(f'altered-{what}', f'set {k} topic {t!r}: delivered {o}, published {x}', {'k': k, 'topic': t})
+
+    return viols
+
+
+def oracle_c02_content(scn, res):
+    return check_content(scn, res), outcome(res)
+
+
+def oracle_c02_dup(scn, res):
+    """Two sources delivering the same destination topic: the consumer must fail with RuntimeError, never merge."""
+
+    viols = []
+    ends  = [e for e in res.log if e['ev'] == 'end' and e['f'] == 'snk']
+    procs = [e for e in res.log if e['ev'] == 'process' and e['f'] == 'snk']
+
+    if procs:
+        viols.append({'signature': 'C02/duplicate-destination-merged/dup', 'what': f'[{scn.get("name")}] sink processed a set although two '
+                      f'sources map to the same topic: {procs[0]["inp"]}', 'detail': None})
+
+    if not ends or ends[0].get('exc') != 'RuntimeError':
+        viols.append({'signature': 'C02/duplicate-destination-no-error/dup', 'what': f'[{scn.get("name")}] sink did not end with RuntimeError: {ends}',
+                      'detail': None})
+
+    return viols, outcome(res)
